@@ -578,8 +578,19 @@ func checkMain(propID, build, verif, tier string, seed int64) int {
 			fmt.Fprintln(os.Stderr, err)
 			return 2
 		}
-		cmd := exec.Command(self, "replay", "-build", build, "-verif", verif, "-quiet", path)
-		out, err := cmd.CombinedOutput()
+		attempts := 1
+		if sc.Violation.Oracle == "repeatability" {
+			attempts = 3 // nondeterminism outside the seams can be observed, not steered: give it more than one chance to show again
+		}
+		var out []byte
+		var err error
+		for a := 0; a < attempts; a++ {
+			cmd := exec.Command(self, "replay", "-build", build, "-verif", verif, "-quiet", path)
+			out, err = cmd.CombinedOutput()
+			if err != nil && strings.Contains(string(out), "REPRODUCED "+sc.Violation.Sig) {
+				break
+			}
+		}
 		if err == nil || !strings.Contains(string(out), "REPRODUCED "+sc.Violation.Sig) {
 			fmt.Fprintf(os.Stderr, "crssim: violation %s did not replay from %s (machinery fault)\n%s\n", sc.Violation.Sig, path, out)
 			return 2
